@@ -22,7 +22,7 @@ UNIT = Unit(
                     Inject(("after_let", "tip909a_erg_subsidy"), "proof { assert(reward >> 8 <= reward) by (bit_vector); }"),
                     Inject(("after_let", "fee_subsidy"), "proof { assert(fee_subsidy == spec_tip909_fee_part(reward, spec_tip(self.network, self.height, 1048000))); }"),
                     Inject(("after_let", "erg_subsidy"), "proof { assert(erg_subsidy == spec_tip909_erg_part(reward, spec_tip(self.network, self.height, 1048000))); }"),
-                    Inject(("after_stmt", "self.fee_pool += CoinValue(mel);"), "let ghost melg = mel as int; let ghost sm0 = old(self).pools@[pk_mel_sym()]; let ghost sm1 = self.pools@[pk_mel_sym()]; proof { assert(right_fed(sm0, sm1, fee_subsidy as int, melg)); }"),
+                    Inject(("before", "let erg_subsidy"), "let ghost melg = mel as int; let ghost sm0 = old(self).pools@[pk_mel_sym()]; let ghost sm1 = self.pools@[pk_mel_sym()]; proof { assert(right_fed(sm0, sm1, fee_subsidy as int, melg)); }"),
                     Inject("end", """proof { let e0 = old(self).pools@[pk_erg_sym()]; let e1 = self.pools@[pk_erg_sym()]; let ergg = e0.lefts - e1.lefts;
                         assert(pk_mel_sym() != pk_erg_sym());
                         assert(self.pools@[pk_mel_sym()] == sm1);
